@@ -327,12 +327,13 @@ Section Inv.
     - eapply Hpi; eauto.
   Qed.
 
-  Lemma next_aps_trivial s j aps e : edge_trivial e -> aps <> [] -> next_aps g cfg ord s j aps e = Some aps.
+  Lemma next_aps_trivial s j aps e ps lb :
+    edge_trivial e -> aps <> [] -> next_aps g cfg ord s j aps e ps lb = Some (if ps then [1%positive] else aps).
   Proof.
     intros Ht Hne. unfold next_aps.
     assert (N.eqb (e_nin e) 0 || (N.eqb (e_nin e) 1 && e_ee e) = true) as ->.
     { destruct Ht as [->|[-> ->]]; reflexivity. }
-    destruct aps; congruence.
+    destruct ps; [reflexivity|]. destruct aps; congruence.
   Qed.
 
   Lemma make_next_inv s j cur cd nv :
@@ -340,14 +341,14 @@ Section Inv.
     cand_inv cur cd -> wf_v cur ->
     wf_v nv /\ in_dom (v_node nv) /\ c_node cd = Some (v_node nv) /\ v_trace nv = c_trace cd /\ v_ctrace nv = c_ctrace cd
     /\ v_kind nv = c_kind cd /\ v_tinfo nv = c_tinfo cd
-    /\ next_aps g cfg ord s j (v_aps cur) (c_edge cd) = Some (v_aps nv)
+    /\ cand_aps g cfg ord s j cur cd = Some (v_aps nv)
     /\ v_depth nv = N.succ (v_depth cur)
     /\ v_prev nv = Some (match c_inter cd with Some i => i | None => v_node cur end).
   Proof.
     unfold make_next. intros H (Ht & Hc & He) [Hwt Hwc].
     destruct (existsb (p_validcond P) (e_conds (c_edge cd))); [discriminate|].
-    destruct (v_aps cur) eqn:Ea; [discriminate|]. rewrite <- Ea in *.
-    destruct (next_aps g cfg ord s j (v_aps cur) (c_edge cd)) as [naps|] eqn:En; [|discriminate].
+    destruct (v_aps cur) eqn:Ea; [discriminate|]. clear Ea.
+    destruct (cand_aps g cfg ord s j cur cd) as [naps|] eqn:En; [|discriminate].
     destruct (c_node cd) as [nn|] eqn:Ecn; [|discriminate].
     destruct (node_of g nn) eqn:Enn; [|discriminate].
     destruct (exceeds_depth cfg (v_depth cur)); [discriminate|].
@@ -359,14 +360,16 @@ Section Inv.
     repeat split; try reflexivity; try exact En.
   Qed.
 
+  (** path-insensitive graphs: the access paths stay the initial [""] *)
   Lemma make_next_aps_const s j cur cd nv :
-    path_insensitive -> make_next g P cfg ord s j cur cd = Ok (Some nv) -> cand_inv cur cd -> wf_v cur -> v_aps nv = v_aps cur.
+    path_insensitive -> make_next g P cfg ord s j cur cd = Ok (Some nv) -> cand_inv cur cd -> wf_v cur ->
+    v_aps cur = [1%positive] -> v_aps nv = [1%positive].
   Proof.
-    intros Hpi H Hc Hw. pose proof (make_next_inv _ _ _ _ _ H Hc Hw) as (_ & _ & _ & _ & _ & _ & _ & Hn & _).
+    intros Hpi H Hc Hw Ha. pose proof (make_next_inv _ _ _ _ _ H Hc Hw) as (_ & _ & _ & _ & _ & _ & _ & Hn & _).
     destruct Hc as (_ & _ & He).
-    assert (v_aps cur <> []) as Hne.
-    { unfold make_next in H. destruct (existsb _ _); [discriminate|]. destruct (v_aps cur); [discriminate|congruence]. }
-    rewrite (next_aps_trivial _ _ _ _ (edge_ok_trivial _ Hpi He) Hne) in Hn. congruence.
+    unfold cand_aps in Hn. rewrite Ha in Hn.
+    rewrite (next_aps_trivial _ _ _ _ _ _ (edge_ok_trivial _ Hpi He)) in Hn by discriminate.
+    destruct (same_presum g cur cd); congruence.
   Qed.
 
 End Inv.
